@@ -4,6 +4,7 @@ package server
 
 import (
 	"bytes"
+	"context"
 	"net/http"
 	"net/url"
 
@@ -13,7 +14,6 @@ import (
 	"github.com/vicanso/pike/config"
 	"github.com/vicanso/pike/location"
 	"github.com/vicanso/pike/upstream"
-	"golang.org/x/net/context"
 )
 
 // C15 — the proxy middleware: what the upstream receives, what is restored afterwards, what the
@@ -22,11 +22,6 @@ import (
 // arbitrary response subject to the RFC 7232/7233 contract: 304 only if a validator was forwarded,
 // 206 only if Range was forwarded.
 
-type c15Writer struct{ h http.Header }
-
-func (w *c15Writer) Header() http.Header         { return w.h }
-func (w *c15Writer) Write(b []byte) (int, error) { return len(b), nil }
-func (w *c15Writer) WriteHeader(int)             {}
 
 type c15Snapshot struct {
 	called                                         int
